@@ -217,20 +217,32 @@ namespace Pistache::Rest
                 collection      = &optional_;
                 break;
             case SegmentType::Splat:
-                return splat_->removeRoute(lower_path);
+                break;
             }
 
-            try
+            if (fragmentType == SegmentType::Splat)
             {
-                const bool removable = collection->at(current_segment)->removeRoute(lower_path);
-                if (removable)
-                {
-                    collection->erase(current_segment);
-                }
+                // Only the splat child goes away when it becomes empty; whether
+                // this node is removable depends on everything else it holds
+                if (splat_ == nullptr)
+                    throw std::runtime_error("Requested does not exist.");
+                if (splat_->removeRoute(lower_path))
+                    splat_.reset();
             }
-            catch (const std::out_of_range&)
+            else
             {
-                throw std::runtime_error("Requested does not exist.");
+                try
+                {
+                    const bool removable = collection->at(current_segment)->removeRoute(lower_path);
+                    if (removable)
+                    {
+                        collection->erase(current_segment);
+                    }
+                }
+                catch (const std::out_of_range&)
+                {
+                    throw std::runtime_error("Requested does not exist.");
+                }
             }
         }
         else
